@@ -43,6 +43,7 @@ Qed.
 
 Lemma D10_parts : forall e gs cs outs, D10 e gs cs outs = true ->
   ks e = true /\ strlit_invalid e = false /\ fix9 e = true /\ fix14 e = true /\ fixoid e = true /\ fixsb e = true /\
+  fixzone e = true /\
   forallb graph_nodup gs = true /\ Forall d3c cs /\ (exists c cs', cs = c :: cs' /\ c_opt c = false) /\ nodup_str outs = true.
 Proof.
   intros e gs cs outs H. unfold D10 in H.
@@ -50,6 +51,7 @@ Proof.
   apply andb_prop in H. destruct H as [H Hfirst].
   apply andb_prop in H. destruct H as [H Hcl].
   apply andb_prop in H. destruct H as [H Hg].
+  apply andb_prop in H. destruct H as [H Hz].
   apply andb_prop in H. destruct H as [H Hsb].
   apply andb_prop in H. destruct H as [H Hoid].
   apply andb_prop in H. destruct H as [H H14].
@@ -81,7 +83,7 @@ Lemma D3_parts : forall e gs cs outs, D3 e gs cs outs = true ->
   forallb graph_nodup gs = true /\ Forall d3c cs /\ cs <> [] /\ nodup_str outs = true.
 Proof.
   intros e gs cs outs H. destruct (D3_D10 _ _ _ _ H) as [H10 _].
-  destruct (D10_parts _ _ _ _ H10) as [Hks [Hsl [H9 [H14 [Hoid [Hsb [Hg [HD [[c [cs' [E _]]] Ho]]]]]]]]].
+  destruct (D10_parts _ _ _ _ H10) as [Hks [Hsl [H9 [H14 [Hoid [Hsb [Hz [Hg [HD [[c [cs' [E _]]] Ho]]]]]]]]]].
   repeat split; try assumption. subst. discriminate.
 Qed.
 
@@ -91,8 +93,8 @@ Theorem execute_is_spec_select10 : forall e gs glo cs outs projs, D10 e gs cs ou
                   Forall2 orow_equiv rows (spec_select glo gs cs outs projs).
 Proof.
   intros e gs glo cs outs projs H.
-  destruct (D10_parts _ _ _ _ H) as [Hks [Hsl [H9 [H14 [Hoid [Hsb [Hg [HD [[c [cs' [E Hopt]]] H0]]]]]]]]]. subst cs.
-  destruct (pattern_is_solutions e gs glo Hks Hsl H9 H14 Hoid Hsb Hg c cs' HD Hopt) as [t [Et Rt]].
+  destruct (D10_parts _ _ _ _ H) as [Hks [Hsl [H9 [H14 [Hoid [Hsb [Hz [Hg [HD [[c [cs' [E Hopt]]] H0]]]]]]]]]]. subst cs.
+  destruct (pattern_is_solutions e gs glo Hks Hsl H9 H14 Hoid Hsb Hz Hg c cs' HD Hopt) as [t [Et Rt]].
   unfold execute. rewrite Et. cbn [bind]. unfold spec_select. rewrite spec_project_eq.
   pose proof (fold_proj_equiv projs _ _ Rt) as Rp. unfold project.
   destruct (map (project_row projs) (trows t)) as [|r0 rs0] eqn:Er.
@@ -105,8 +107,8 @@ Theorem pattern_is_steps10 : forall e gs glo cs outs, D10 e gs cs outs = true ->
   exists t, process_pattern e gs glo cs empty_table = Ok t /\ Forall2 row_equiv (trows t) (spec_solutions glo gs cs).
 Proof.
   intros e gs glo cs outs H.
-  destruct (D10_parts _ _ _ _ H) as [Hks [Hsl [H9 [H14 [Hoid [Hsb [Hg [HD [[c [cs' [E Hopt]]] H0]]]]]]]]]. subst cs.
-  apply (pattern_is_solutions e gs glo Hks Hsl H9 H14 Hoid Hsb Hg c cs' HD Hopt).
+  destruct (D10_parts _ _ _ _ H) as [Hks [Hsl [H9 [H14 [Hoid [Hsb [Hz [Hg [HD [[c [cs' [E Hopt]]] H0]]]]]]]]]]. subst cs.
+  apply (pattern_is_solutions e gs glo Hks Hsl H9 H14 Hoid Hsb Hz Hg c cs' HD Hopt).
 Qed.
 
 Theorem execute_is_spec_select : forall e gs glo cs outs projs, D3 e gs cs outs = true ->
